@@ -111,12 +111,12 @@ theorem C12_url_remote (d : DepInfo) (h : Str) (hsrc : d.source = .href h) (lp :
 
 /-- `as_dict` writes exactly these URLs: the `src` of every script is `urlOf` of the script's path -/
 theorem C12_dict_scripts (base : Str) (l l' : List KVs) (h : asDictScripts base l = .ok l') :
-    l'.map (alookup kSrc) = l.map (fun s => (alookup kSrc s).map fun p => posixJoin base (quote p)) := by
+    l'.map (alookup dtKSrc) = l.map (fun s => (alookup dtKSrc s).map fun p => posixJoin base (quote p)) := by
   induction l generalizing l' with
   | nil => simp [asDictScripts] at h; subst h; rfl
   | cons s r ih =>
     simp only [asDictScripts] at h
-    cases hs : alookup kSrc s with
+    cases hs : alookup dtKSrc s with
     | none => simp [hs] at h
     | some p =>
       simp only [hs] at h
@@ -129,13 +129,13 @@ theorem C12_dict_scripts (base : Str) (l l' : List KVs) (h : asDictScripts base 
 
 /-- … and the `href` of every stylesheet, whose `rel` is forced to `stylesheet` -/
 theorem C12_dict_sheets (base : Str) (l l' : List KVs) (h : asDictSheets base l = .ok l') :
-    l'.map (alookup kHref) = l.map (fun s => (alookup kHref s).map fun p => posixJoin base (quote p))
-    ∧ ∀ s ∈ l', alookup kRel s = some vStylesheet := by
+    l'.map (alookup dtKHref) = l.map (fun s => (alookup dtKHref s).map fun p => posixJoin base (quote p))
+    ∧ ∀ s ∈ l', alookup dtKRel s = some vStylesheet := by
   induction l generalizing l' with
   | nil => simp [asDictSheets] at h; subst h; simp
   | cons s r ih =>
     simp only [asDictSheets] at h
-    cases hs : alookup kHref s with
+    cases hs : alookup dtKHref s with
     | none => simp [hs] at h
     | some p =>
       simp only [hs] at h
@@ -144,7 +144,7 @@ theorem C12_dict_sheets (base : Str) (l l' : List KVs) (h : asDictSheets base l 
       | ok r' =>
         simp only [hr, Except.ok.injEq] at h
         subst h
-        have hne : kHref ≠ kRel := by decide
+        have hne : dtKHref ≠ dtKRel := by decide
         obtain ⟨i1, i2⟩ := ih r' hr
         refine ⟨by simp [alookup_kvSet_ne _ _ _ _ hne, alookup_kvSet, hs, i1], ?_⟩
         intro x hx
@@ -159,8 +159,8 @@ theorem C12_dict_sheets (base : Str) (l l' : List KVs) (h : asDictSheets base l 
 theorem C12_target (d : DepInfo) (fileAbs : Str) (libdir : Option Str) (iv : Bool)
     (hl : CleanDirOpt libdir = true) (hn : SafeSeg (dirName d iv) = true) :
     tgtDir d (destDir fileAbs libdir) iv
-      = resolve (dirname fileAbs) ++ segsOpt libdir ++ [utf8 (dirName d iv)] := by
-  have hdest : resolve (destDir fileAbs libdir) = resolve (dirname fileAbs) ++ segsOpt libdir := by
+      = pathResolve (dirname fileAbs) ++ segsOpt libdir ++ [utf8 (dirName d iv)] := by
+  have hdest : pathResolve (destDir fileAbs libdir) = pathResolve (dirname fileAbs) ++ segsOpt libdir := by
     unfold destDir
     cases libdir with
     | none => simp [destDir.withPrefix', segsOpt]
@@ -183,10 +183,10 @@ theorem C12_agree (d : DepInfo) (pkg : Option Str) (dir abs : Str) (hsrc : d.sou
     (hp : CleanRel p = true) (hl : CleanDirOpt libdir = true) (hn : SafeSeg (dirName d iv) = true) :
     relRefOk (urlOf d libdir iv p) = true
     ∧ segs (unquoteB (urlOf d libdir iv p)) = segsOpt libdir ++ [utf8 (dirName d iv)] ++ segs (utf8 p)
-    ∧ resolve (posixJoin (posixJoin (destDir fileAbs libdir) (dirName d iv)) p)
-        = resolve (dirname fileAbs) ++ segsOpt libdir ++ [utf8 (dirName d iv)] ++ segs (utf8 p)
-    ∧ resolveRef (resolve (dirname fileAbs)) (urlOf d libdir iv p)
-        = resolve (posixJoin (posixJoin (destDir fileAbs libdir) (dirName d iv)) p) := by
+    ∧ pathResolve (posixJoin (posixJoin (destDir fileAbs libdir) (dirName d iv)) p)
+        = pathResolve (dirname fileAbs) ++ segsOpt libdir ++ [utf8 (dirName d iv)] ++ segs (utf8 p)
+    ∧ resolveRef (pathResolve (dirname fileAbs)) (urlOf d libdir iv p)
+        = pathResolve (posixJoin (posixJoin (destDir fileAbs libdir) (dirName d iv)) p) := by
   have hloc := C12_url_local d pkg dir abs hsrc libdir iv p (safeSeg_head hn)
   have hclosed := C12_url_local_closed d pkg dir abs hsrc libdir iv p hn hp
   -- characters of the base URL
@@ -208,8 +208,8 @@ theorem C12_agree (d : DepInfo) (pkg : Option Str) (dir abs : Str) (hsrc : d.sou
       = segsOpt libdir ++ [utf8 (dirName d iv)] ++ segs (utf8 p) := by
     rw [hloc.2.2.2, unquoteB_posixJoin_quote _ _ hnopct (cleanRel_bytesHead hp),
       segs_utf8_posixJoin _ _ (cleanRel_head hp), segs_hrefBaseSpec hn]
-  have hcopy : resolve (posixJoin (posixJoin (destDir fileAbs libdir) (dirName d iv)) p)
-      = resolve (dirname fileAbs) ++ segsOpt libdir ++ [utf8 (dirName d iv)] ++ segs (utf8 p) := by
+  have hcopy : pathResolve (posixJoin (posixJoin (destDir fileAbs libdir) (dirName d iv)) p)
+      = pathResolve (dirname fileAbs) ++ segsOpt libdir ++ [utf8 (dirName d iv)] ++ segs (utf8 p) := by
     rw [resolve_posixJoin _ p (cleanRel_head hp)]
     have := C12_target d fileAbs libdir iv hl hn
     unfold tgtDir at this
@@ -261,11 +261,11 @@ theorem C12_copy_ok (d : DepInfo) (pkg : Option Str) (dir abs : Str) (hsrc : d.s
     (habs : abs ≠ []) (haf : d.allFiles = false) (fl : List Str) (hfl : listedFiles d = .ok fl)
     (path : Str) (iv : Bool) (fs : FS)
     (hclean : ∀ f ∈ fl, CleanRel f = true)
-    (hfiles : ∀ f ∈ fl, (fs.read (resolve abs ++ segs (utf8 f))).isSome = true)
-    (hST : Apart (resolve abs) (tgtDir d path iv)) (hpath : fs.fileOnPath (tgtDir d path iv) = false) :
+    (hfiles : ∀ f ∈ fl, (fs.read (pathResolve abs ++ segs (utf8 f))).isSome = true)
+    (hST : Apart (pathResolve abs) (tgtDir d path iv)) (hpath : fs.fileOnPath (tgtDir d path iv) = false) :
     ∃ fs', copyTo d path iv fs = (fs', .ok ())
       ∧ (∀ q, fs'.read (tgtDir d path iv ++ q)
-          = if q ∈ fl.map (fun f => segs (utf8 f)) then fs.read (resolve abs ++ q) else none)
+          = if q ∈ fl.map (fun f => segs (utf8 f)) then fs.read (pathResolve abs ++ q) else none)
       ∧ (∀ q, ¬ tgtDir d path iv <+: q → fs'.read q = fs.read q) := by
   obtain ⟨fs', h1, h2, h3⟩ := copyTo_listed d pkg dir abs hsrc habs haf fl hfl path iv fs
     (fun f hf => cleanRel_head (hclean f hf)) hfiles hST hpath
@@ -274,10 +274,10 @@ theorem C12_copy_ok (d : DepInfo) (pkg : Option Str) (dir abs : Str) (hsrc : d.s
 /-- `all_files`: the whole source directory arrives, byte-identical, and nothing else is in the target -/
 theorem C12_copy_ok_all (d : DepInfo) (pkg : Option Str) (dir abs : Str) (hsrc : d.source = .subdir pkg dir abs)
     (habs : abs ≠ []) (haf : d.allFiles = true) (path : Str) (iv : Bool) (fs : FS)
-    (hwf : SrcWF fs (resolve abs))
-    (hST : Apart (resolve abs) (tgtDir d path iv)) (hpath : fs.fileOnPath (tgtDir d path iv) = false) :
+    (hwf : SrcWF fs (pathResolve abs))
+    (hST : Apart (pathResolve abs) (tgtDir d path iv)) (hpath : fs.fileOnPath (tgtDir d path iv) = false) :
     ∃ fs', copyTo d path iv fs = (fs', .ok ())
-      ∧ (∀ q, q ≠ [] → fs'.read (tgtDir d path iv ++ q) = fs.read (resolve abs ++ q))
+      ∧ (∀ q, q ≠ [] → fs'.read (tgtDir d path iv ++ q) = fs.read (pathResolve abs ++ q))
       ∧ (∀ q, ¬ tgtDir d path iv <+: q → fs'.read q = fs.read q) := by
   obtain ⟨fs', h1, h2, h3⟩ := copyTo_all d pkg dir abs hsrc habs haf path iv fs hwf hST hpath
   refine ⟨fs', h1, ?_, h2⟩
@@ -289,11 +289,11 @@ theorem C12_copy_ok_all (d : DepInfo) (pkg : Option Str) (dir abs : Str) (hsrc :
 theorem C12_copy_missing (d : DepInfo) (pkg : Option Str) (dir abs : Str) (hsrc : d.source = .subdir pkg dir abs)
     (habs : abs ≠ []) (haf : d.allFiles = false) (fl : List Str) (hfl : listedFiles d = .ok fl)
     (path : Str) (iv : Bool) (fs : FS)
-    (f : Str) (hf : f ∈ fl) (hmiss : fs.exists (resolve (posixJoin abs f)) = false) :
+    (f : Str) (hf : f ∈ fl) (hmiss : fs.exists (pathResolve (posixJoin abs f)) = false) :
     copyTo d path iv fs = (fs, .error .exception) := by
   have hne : abs.isEmpty = false := by cases abs <;> simp_all
-  have hall : ((fl.map fun f => (resolve (posixJoin abs f),
-      resolve (posixJoin (posixJoin path (dirName d iv)) f))).all fun it => fs.exists it.1) = false := by
+  have hall : ((fl.map fun f => (pathResolve (posixJoin abs f),
+      pathResolve (posixJoin (posixJoin path (dirName d iv)) f))).all fun it => fs.exists it.1) = false := by
     rw [List.all_eq_false]
     exact ⟨_, List.mem_map.mpr ⟨f, hf, rfl⟩, by simp [hmiss]⟩
   simp [copyTo, sourcePathMap_subdir hsrc, withPrefix, hne, copyItems, haf, hfl, hall]
@@ -316,19 +316,19 @@ theorem C12_no_copy (d : DepInfo) (h : d.source = .none ∨ ∃ u, d.source = .h
 /-- `save_html(file, libdir, iv)` renders with `lib_prefix = libdir`, copies every dependency of *that* rendering to
     `dirname(file)/libdir` in order, and only then writes the file; it returns the `file` argument unchanged.
     If a copy fails, the error is propagated and the HTML file is not written. -/
-theorem C12_save (render : Option Str → Bool → Rendered) (file fileAbs : Str) (libdir : Option Str) (iv : Bool)
+theorem C12_save (render : Option Str → Bool → FsRendered) (file fileAbs : Str) (libdir : Option Str) (iv : Bool)
     (fs : FS) :
     saveHtml render file fileAbs libdir iv fs =
       match copyAll (render libdir iv).deps (destDir fileAbs libdir) iv fs with
       | (fs1, .error e) => (fs1, .error e)
       | (fs1, .ok _) =>
-        if fs1.isDir (resolve fileAbs) || fs1.fileOnPath (resolve fileAbs).dropLast then (fs1, .error .exception)
-        else (fs1.write (resolve fileAbs) (utf8 (render libdir iv).html), .ok file) := by
+        if fs1.isDir (pathResolve fileAbs) || fs1.fileOnPath (pathResolve fileAbs).dropLast then (fs1, .error .exception)
+        else (fs1.write (pathResolve fileAbs) (utf8 (render libdir iv).html), .ok file) := by
   rfl
 
 /-- the destination of the dependencies is `dirname(file)` when `libdir` is `None` or `""`, else `dirname(file)/libdir` -/
 theorem C12_save_destdir (fileAbs : Str) (libdir : Option Str) (hl : CleanDirOpt libdir = true) :
-    resolve (destDir fileAbs libdir) = resolve (dirname fileAbs) ++ segsOpt libdir := by
+    pathResolve (destDir fileAbs libdir) = pathResolve (dirname fileAbs) ++ segsOpt libdir := by
   unfold destDir
   cases libdir with
   | none => simp [destDir.withPrefix', segsOpt]
@@ -342,7 +342,7 @@ theorem C12_save_destdir (fileAbs : Str) (libdir : Option Str) (hl : CleanDirOpt
       exact resolve_posixJoin _ l (cleanDir_head hcd)
 
 /-- `Tag.save_html` and `TagList.save_html` behave exactly as `HTMLDocument.save_html` of the wrapping document -/
-theorem C12_save_receivers (recv : Receiver) (render : Option Str → Bool → Rendered) (file fileAbs : Str)
+theorem C12_save_receivers (recv : Receiver) (render : Option Str → Bool → FsRendered) (file fileAbs : Str)
     (libdir : Option Str) (iv : Bool) (fs : FS) :
     saveHtmlOn recv render file fileAbs libdir iv fs = saveHtml render file fileAbs libdir iv fs := rfl
 
@@ -351,7 +351,7 @@ theorem C12_save_receivers (recv : Receiver) (render : Option Str → Bool → R
     creatable.  Then `save_html` succeeds and returns `file`; the file holds the rendering; **every local URL of a wanted
     file, percent-decoded and resolved against the file's directory, names a copy byte-identical to its source**;
     every target directory holds nothing but wanted files (stale content gone); everything else is unchanged. -/
-theorem C12_save_urls (render : Option Str → Bool → Rendered) (file fileAbs : Str) (libdir : Option Str)
+theorem C12_save_urls (render : Option Str → Bool → FsRendered) (file fileAbs : Str) (libdir : Option Str)
     (iv : Bool) (fs : FS)
     (hl : CleanDirOpt libdir = true)
     (hnames : ∀ d ∈ (render libdir iv).deps, isLocal d = true → SafeSeg (dirName d iv) = true)
@@ -360,18 +360,18 @@ theorem C12_save_urls (render : Option Str → Bool → Rendered) (file fileAbs 
     (hST : ∀ a ∈ (render libdir iv).deps, ∀ b ∈ (render libdir iv).deps, isLocal a = true → isLocal b = true →
       Apart (srcDir a) (tgtDir b (destDir fileAbs libdir) iv))
     (hF : ∀ d ∈ (render libdir iv).deps, isLocal d = true →
-      Apart (resolve fileAbs) (tgtDir d (destDir fileAbs libdir) iv))
-    (hFd : fs.isDir (resolve fileAbs) = false) (hFp : fs.fileOnPath (resolve fileAbs).dropLast = false) :
+      Apart (pathResolve fileAbs) (tgtDir d (destDir fileAbs libdir) iv))
+    (hFd : fs.isDir (pathResolve fileAbs) = false) (hFp : fs.fileOnPath (pathResolve fileAbs).dropLast = false) :
     ∃ fs', saveHtml render file fileAbs libdir iv fs = (fs', .ok file)
-      ∧ fs'.read (resolve fileAbs) = some (utf8 (render libdir iv).html)
+      ∧ fs'.read (pathResolve fileAbs) = some (utf8 (render libdir iv).html)
       ∧ (∀ d ∈ (render libdir iv).deps, isLocal d = true → ∀ p, CleanRel p = true →
           wantedB d (segs (utf8 p)) = true →
           relRefOk (urlOf d libdir iv p) = true ∧
-          fs'.read (resolveRef (resolve (dirname fileAbs)) (urlOf d libdir iv p))
+          fs'.read (resolveRef (pathResolve (dirname fileAbs)) (urlOf d libdir iv p))
             = fs.read (srcDir d ++ segs (utf8 p)))
       ∧ (∀ d ∈ (render libdir iv).deps, isLocal d = true → ∀ r, wantedB d r = false →
           fs'.read (tgtDir d (destDir fileAbs libdir) iv ++ r) = none)
-      ∧ (∀ q, q ≠ resolve fileAbs →
+      ∧ (∀ q, q ≠ pathResolve fileAbs →
           (∀ d ∈ (render libdir iv).deps, isLocal d = true → ¬ tgtDir d (destDir fileAbs libdir) iv <+: q) →
           fs'.read q = fs.read q) := by
   generalize hdeps : (render libdir iv).deps = deps at *
@@ -388,7 +388,7 @@ theorem C12_save_urls (render : Option Str → Bool → Rendered) (file fileAbs 
     exact List.Pairwise.imp_of_mem (fun ha hb h => this _ ha _ hb h) hdistinct
   obtain ⟨fs1, hc, hframe, hspec⟩ := copyAll_spec (destDir fileAbs libdir) iv deps fs hready hTT hST
   -- the file can be written after the copies
-  have hw := writable_transfer fs fs1 (resolve fileAbs)
+  have hw := writable_transfer fs fs1 (pathResolve fileAbs)
     ((deps.filter fun d => isLocal d).map fun d => tgtDir d (destDir fileAbs libdir) iv)
     (by
       intro q hq
@@ -403,7 +403,7 @@ theorem C12_save_urls (render : Option Str → Bool → Rendered) (file fileAbs 
     hFd hFp
   have hsave := saveHtml_of_copyAll_ok (render := render) (file := file) (by rw [hdeps]; exact hc) hw.1 hw.2
   -- a path inside a target directory is not the HTML file
-  have hneF : ∀ d ∈ deps, isLocal d = true → ∀ r, tgtDir d (destDir fileAbs libdir) iv ++ r ≠ resolve fileAbs := by
+  have hneF : ∀ d ∈ deps, isLocal d = true → ∀ r, tgtDir d (destDir fileAbs libdir) iv ++ r ≠ pathResolve fileAbs := by
     intro d hd hld r e
     exact (hF d hd hld).2 (e ▸ List.prefix_append _ r)
   refine ⟨_, hsave, by rw [read_write]; simp, ?_, ?_, ?_⟩
@@ -412,7 +412,7 @@ theorem C12_save_urls (render : Option Str → Bool → Rendered) (file fileAbs 
     have hag := C12_agree d pkg dir abs hsrc fileAbs libdir iv p hp hl (hnames d hd hld)
     refine ⟨hag.1, ?_⟩
     rw [hag.2.2.2, resolve_posixJoin _ p (cleanRel_head hp)]
-    have e : resolve (posixJoin (destDir fileAbs libdir) (dirName d iv)) = tgtDir d (destDir fileAbs libdir) iv := rfl
+    have e : pathResolve (posixJoin (destDir fileAbs libdir) (dirName d iv)) = tgtDir d (destDir fileAbs libdir) iv := rfl
     rw [e, read_write]
     simp only [hneF d hd hld _, if_false]
     rw [hspec d hd hld]
@@ -430,7 +430,7 @@ theorem C12_save_urls (render : Option Str → Bool → Rendered) (file fileAbs 
 /-- a dependency of the rendering cannot be copied (a listed file is missing, …) ⇒ `save_html` raises the same error
     and does not write the HTML file; dependencies before the failing one have been copied, the failing one's target
     is untouched (`C12_copy_missing`) -/
-theorem C12_save_fail (render : Option Str → Bool → Rendered) (file fileAbs : Str) (libdir : Option Str) (iv : Bool)
+theorem C12_save_fail (render : Option Str → Bool → FsRendered) (file fileAbs : Str) (libdir : Option Str) (iv : Bool)
     (fs fs1 : FS) (e : Err)
     (hc : copyAll (render libdir iv).deps (destDir fileAbs libdir) iv fs = (fs1, .error e)) :
     saveHtml render file fileAbs libdir iv fs = (fs1, .error e) :=
@@ -442,8 +442,8 @@ theorem C12_save_fail (render : Option Str → Bool → Rendered) (file fileAbs 
 def exDep : DepInfo :=
   { name := ['m', 'y', '-', 'd', 'e', 'p'], version := ['1', '.', '0', '+', 'x'], vrank := 0,
     source := .subdir none ['/', 's'] ['/', 's'],
-    script := [[(kSrc, ['a', ' ', 'b', '/', '1', '0', '0', '%', 'é', '.', 'j', 's'])]],
-    stylesheet := [[(kHref, ['q', '#', '?', '.', 'c', 's', 's']), (kRel, vStylesheet)]],
+    script := [[(dtKSrc, ['a', ' ', 'b', '/', '1', '0', '0', '%', 'é', '.', 'j', 's'])]],
+    stylesheet := [[(dtKHref, ['q', '#', '?', '.', 'c', 's', 's']), (dtKRel, vStylesheet)]],
     metas := [], allFiles := false }
 
 def exJs : Path := [[0x61, 0x20, 0x62], [0x31, 0x30, 0x30, 0x25, 0xC3, 0xA9, 0x2E, 0x6A, 0x73]]
@@ -479,7 +479,7 @@ example :
       = ['l', 'i', 'b', '/', 'm', 'y', '-', 'd', 'e', 'p', '-', '1', '.', '0', '+', 'x', '/',
          'a', '%', '2', '0', 'b', '/', '1', '0', '0', '%', '2', '5', '%', 'C', '3', '%', 'A', '9', '.', 'j', 's']
     ∧ ((copyTo exDep (destDir exFile exLib) true exFS).1.read
-        (resolveRef (resolve (dirname exFile))
+        (resolveRef (pathResolve (dirname exFile))
           (urlOf exDep exLib true ['a', ' ', 'b', '/', '1', '0', '0', '%', 'é', '.', 'j', 's']))) = some [1, 2, 3]
     ∧ ((copyTo exDep (destDir exFile exLib) true exFS).1.read
         [[0x6F], [0x6C, 0x69, 0x62], utf8 (dirName exDep true), [0x6F, 0x6C, 0x64]]) = none
